@@ -408,6 +408,21 @@ class Reporter:
         return code
 
 
+async def close_server(server, viol=None, subject="final-close"):
+    """The scenario's own final Server.close().  A close() that never completes is reported when
+    the property at hand is about shutdown (viol given); otherwise it is none of this check's
+    business - and never a harness error."""
+    import asyncio
+
+    try:
+        await asyncio.wait_for(server.close(), 1e4)
+        return True
+    except asyncio.TimeoutError:
+        if viol is not None:
+            viol.append({"clause": "server-close-hangs", "subject": subject, "detail": "Server.close() did not complete within 10000 virtual seconds"})
+        return False
+
+
 def _size(case):
     return len(json.dumps(case, default=_jsonable))
 
